@@ -29,12 +29,12 @@ LEVEL_NOTE = ('Cell values encode (model, aperture, wavelength); exact rational 
 RULE = ("cases: package configurations; executions: convolve_model_dir on both formats (+ memmap variants), every output row compared, then Fitter.fit on 4 variants x sources; "
         "non-trivial = distinct configurations with >= 2 models")
 ASSUMPTIONS = ["all SEDs of a package share the wavelength grid", "finite value alphabets"]
-REQUIRED_CLASSES = ['more-than-128-models', 'permuted-table', 'filenames-disagree-with-model-names', 'listing-reversed', 'sed-wav-ascending', 'three-filters', 'single-model', 'eight-models',
+REQUIRED_CLASSES = ['spectra-of-100-points-or-more', 'filters-overhanging-both-ends-of-the-spectra', 'more-than-128-models', 'permuted-table', 'filenames-disagree-with-model-names', 'listing-reversed', 'sed-wav-ascending', 'three-filters', 'single-model', 'eight-models',
                     'five-apertures', 'formats-compared', 'fits-compared', 'remove-resolved', 'all-permutations-4', 'apertures-in-other-unit', 'seds-in-subdirs-or-gz', 'parameters-gz', 'seds-stored-in-Jy', 'seds-on-different-grids', 'single-real-aperture', 'error-column-in-other-unit', 'convolve-after-listing']
 TIMEOUT = {'quick': 600, 'thorough': 3000}
 
 AXES = {'n_models': [3, 1, 2, 5, 8], 'n_ap': [2, 1, 3, 5], 'perm': ['identity', 'reversed', 'rotated', 'swap01'], 'fnames': ['same', 'reversed'],
-        'listing': ['sorted', 'reversed'], 'sord': ['wav-desc', 'wav-asc'], 'nfilt': [1, 3], 'rr': [False, True], 'ap_unit': ['AU', 'pc', 'cm'], 'layout': ['flat', 'subdir', 'gz', 'subdir+gz'], 'par_gz': [False, True], 'funit': ['mJy', 'Jy'], 'grids': ['same', 'interior'], 'single_ap_real': [False, True], 'err_unit': ['same', 'other']}
+        'listing': ['sorted', 'reversed'], 'sord': ['wav-desc', 'wav-asc'], 'nfilt': [1, 3, 5], 'rr': [False, True], 'ap_unit': ['AU', 'pc', 'cm'], 'layout': ['flat', 'subdir', 'gz', 'subdir+gz'], 'par_gz': [False, True], 'funit': ['mJy', 'Jy'], 'grids': ['same', 'interior'], 'single_ap_real': [False, True], 'err_unit': ['same', 'other']}
 
 
 def setup(tier, seed):
@@ -49,6 +49,8 @@ def setup(tier, seed):
     for dev in ([{}, {'perm': 'reversed'}, {'perm': 'rotated', 'fnames': 'reversed'}, {'listing': 'reversed', 'layout': 'subdir+gz'}, {'sord': 'wav-asc', 'nfilt': 3}]
                 + ([] if tier == 'quick' else [{'perm': 'swap01', 'par_gz': True}, {'rr': True}, {'n_ap': 5}, {'n_ap': 1}])):
         out.append(dict(default, fam='big', n_models=140 if tier == 'quick' else 300, **dev))
+    for dev in ([{'nfilt': 5}, {'nfilt': 5, 'sord': 'wav-asc', 'perm': 'reversed'}] + ([] if tier == 'quick' else [{'nfilt': 5, 'n_ap': 1}, {'nfilt': 3, 'layout': 'gz', 'n_models': 70}])):
+        out.append(dict(dict(default, n_models=5), fam='longspec', n_wav=100 if tier == 'quick' else 150, **dev))
     return {'tier': tier, 'seed': seed, 'cases': out}
 
 
@@ -114,8 +116,12 @@ def run_case(ctx, case, rec, d):
     seed = ctx['seed']
     n_models, n_ap = case['n_models'], case['n_ap']
     rng = np.random.default_rng(seed * 17 + n_models * 3 + n_ap)
-    n_wav = 7
+    n_wav = case.get('n_wav', 7)
     w_asc = np.array([0.9, 1.6, 2.9, 5.2, 9.4, 17.0, 30.0])
+    if n_wav != 7:          # scale: spectra of a hundred points or more (indices beyond 64 / 127), slightly irregular
+        w_asc = np.geomspace(0.9, 30.0, n_wav) * (1.0 + 0.002 * np.cos(np.arange(n_wav) * 1.7))
+        w_asc[0], w_asc[-1] = 0.9, 30.0
+        rec.cls('spectra-of-100-points-or-more')
     wav_file = w_asc if case['sord'] == 'wav-asc' else w_asc[::-1]
     base_names = ['sd_q', 'sd_b', 'sd_x', 'sd_a', 'sd_m', 'sd_c', 'sd_z', 'sd_k']
     for i in range(8, n_models):        # scale: scrambled names, every seventh filling the 30-character name column
@@ -204,9 +210,16 @@ def run_case(ctx, case, rec, d):
     # ---- filters
     nu_asc = np.sort(pkgwriter.C_M_S / (w_asc * 1e-6))
     order_nu = np.argsort(pkgwriter.C_M_S / (w_asc * 1e-6))          # index into w_asc for increasing nu
-    fdefs = [('FA', 3.0, np.array([nu_asc[1] * 0.9, nu_asc[2], nu_asc[3] * 1.1, nu_asc[4]])[::-1], np.array([0.0, 1.0, 0.7, 0.0])),
-             ('FB', 1.3, np.array([nu_asc[4] * 0.8, nu_asc[5], nu_asc[6]]), np.array([0.2, 1.0, 0.5])),
-             ('FC', 12.0, np.linspace(nu_asc[0], nu_asc[2], 6), np.array([0.1, 0.5, 1.0, 0.8, 0.4, 0.1]))][:case['nfilt']]
+    def q(i):        # position i of the 7-point grid carried over to a grid of n_wav points
+        return int(round(i * (n_wav - 1) / 6.0))
+    # FD and FE reach beyond the long- and the short-wavelength end of the spectra: only the overlap counts
+    fdefs = [('FA', 3.0, np.array([nu_asc[q(1)] * 0.9, nu_asc[q(2)], nu_asc[q(3)] * 1.1, nu_asc[q(4)]])[::-1], np.array([0.0, 1.0, 0.7, 0.0])),
+             ('FB', 1.3, np.array([nu_asc[q(4)] * 0.8, nu_asc[q(5)], nu_asc[q(6)]]), np.array([0.2, 1.0, 0.5])),
+             ('FC', 12.0, np.linspace(nu_asc[q(0)], nu_asc[q(2)], 6), np.array([0.1, 0.5, 1.0, 0.8, 0.4, 0.1])),
+             ('FD', 25.0, np.array([nu_asc[0] * 0.45, nu_asc[0] * 0.8, nu_asc[q(1)], nu_asc[q(2)] * 1.05]), np.array([0.3, 1.0, 0.8, 0.1])),
+             ('FE', 1.0, np.array([nu_asc[q(5)] * 0.97, nu_asc[-1] * 1.02, nu_asc[-1] * 1.4]), np.array([0.1, 1.0, 0.6]))][:case['nfilt']]
+    if case['nfilt'] >= 5:
+        rec.cls('filters-overhanging-both-ends-of-the-spectra')
     filters = [_mkfilter(x, y, nm, cw) for nm, cw, x, y in fdefs]
     for f in filters:
         f.normalize()
@@ -282,7 +295,7 @@ def run_case(ctx, case, rec, d):
     # ---- fits from the four variants
     bands = [f.name for f in filters]
     kk = fc.law_k('power', [cw for _, cw, _, _ in fdefs])
-    theta = [1.0, 3.0, 2.0][:len(bands)]
+    theta = [1.0, 3.0, 2.0, 1.5, 1.0][:len(bands)]
     dr = (0.3, 3.0)
     variants = [('v1', md1, False), ('v1', md1, True), ('v2', md2, False), ('v2', md2, True)]
     res = {}
@@ -292,10 +305,10 @@ def run_case(ctx, case, rec, d):
         base = np.array([np.sum(flux[p][min(1, n_ap - 1)][order_nu] * np.array([float(x) for x in convref.rebin_exact(fx, np.asarray(f.response), nu_asc)[0]]))
                          for f, (_, _, fx, _) in zip(filters, fdefs)])
         base = base * 10 ** (1.3 * kk) * 0.8
-        flags = [1, 1, 1][:len(bands)] if p == 0 else [1, 4, 3][:len(bands)]
+        flags = [1, 1, 1, 1, 1][:len(bands)] if p == 0 else [1, 4, 3, 1, 2][:len(bands)]
         fl, er = fc.photometry(flags, base, p)
         for j, v in enumerate(flags):
-            if v == 3:
+            if v in (2, 3):
                 er[j] = 0.6
         srcs.append((flags, fl, er))
     if len(bands) == 1 and n_ap == 1:
@@ -342,17 +355,17 @@ def run_case(ctx, case, rec, d):
         try:
             import sedfitter
             sedfitter.write_parameters(res[('v1', False)][0], os.path.join(d, 'listing.txt'), select_format=('A', 0))
-            fd = _mkfilter(np.linspace(nu_asc[3], nu_asc[5], 5), np.array([0.3, 1.0, 0.9, 0.6, 0.2]), 'FD', 2.2)
+            fd = _mkfilter(np.linspace(nu_asc[q(3)], nu_asc[q(5)], 5), np.array([0.3, 1.0, 0.9, 0.6, 0.2]), 'FL', 2.2)
             fd.normalize()
             convolve_model_dir(md1, [fd])
-            namesD, ffD, eeD, fwD, faD = _read_conv(os.path.join(md1, 'convolved', 'FD.fits'), n_models, n_ap)
+            namesD, ffD, eeD, fwD, faD = _read_conv(os.path.join(md1, 'convolved', 'FL.fits'), n_models, n_ap)
             rec.trans(2)
             rec.ev(n_models)
             rec.cls('convolve-after-listing')
             if namesD != table_order:
-                rec.violation('rows|order|v1|after-listing', {'filter': 'FD'}, {'rows': namesD, 'table_order': table_order, 'note': 'convolved after write_parameters had been called on this package'})
+                rec.violation('rows|order|v1|after-listing', {'filter': 'FL'}, {'rows': namesD, 'table_order': table_order, 'note': 'convolved after write_parameters had been called on this package'})
         except Exception as e:
             from mc.runner import exc_signature
-            rec.violation('convolve-after-listing|' + exc_signature(e), {'filter': 'FD'}, {'type': type(e).__name__, 'msg': str(e)[:300]})
+            rec.violation('convolve-after-listing|' + exc_signature(e), {'filter': 'FL'}, {'type': type(e).__name__, 'msg': str(e)[:300]})
     if case.get('_deviations') == 0:
         rec.sample({'config': {k: v for k, v in case.items()}, 'table_order': table_order, 'filters': bands, 'v1_rows': outputs['v1'][bands[0]][0], 'v1_flux_first_row': outputs['v1'][bands[0]][1][0]})
